@@ -369,6 +369,16 @@ type Result struct {
 	NConns        int
 }
 
+// snapshotClosed records, before teardown releases parked goroutines (whose
+// deferred Close calls then run), whether the server had closed each connection.
+//
+//go:norace
+func (rt *Runtime) snapshotClosed() {
+	for _, c := range rt.Conns {
+		c.ClosedBefore = c.Closed
+	}
+}
+
 //go:norace
 func (rt *Runtime) setFrozen() { rt.frozen = true }
 
@@ -411,6 +421,9 @@ func (rt *Runtime) finish(res *Result) {
 // teardown stops the server after the decided part of the run: it freezes the
 // recorder, releases wedged connections and closes the server.
 func (rt *Runtime) teardown(res *Result) {
+	if !rt.K.enabled {
+		rt.snapshotClosed()
+	}
 	rt.setFrozen()
 	setCurKernel(nil)
 	// lock acquisition stays cooperative during teardown: a goroutine that was
@@ -558,6 +571,7 @@ func RunScheduled(c *Case) *Result {
 	res.NConns = len(rt.Conns)
 	res.LockWaits = rt.K.lockWaits
 	res.HoldsForced = rt.K.holdsForced
+	rt.snapshotClosed()
 	rt.setFrozen()
 	rt.K.KillAll()
 	for i := range rt.closerEv {
